@@ -151,7 +151,7 @@ def explore(rng, transport, profile, flavor, runner_cls, max_cmds=70):
     info = {'flavor': flavor, 'faults': [], 'server_texts': srv.sent_texts}
     scaps = server_caps(rng)
     client_has_11 = B11 in list(R.session._client_capabilities)
-    want11 = (B11 in scaps or B11X in scaps) and client_has_11
+    want11 = (B11 in scaps) and client_has_11          # RFC 6241 §8.1: only this URI names the base:1.1 capability
 
     def do(cmd):
         cmds.append(cmd)
@@ -327,6 +327,7 @@ def explore(rng, transport, profile, flavor, runner_cls, max_cmds=70):
     info['closed'] = closed
     info['finished'] = finished
     info['server_out_left'] = len(srv.out)
+    info['answered'] = list(srv.answered)
     info['want11'] = want11
     info['server_caps'] = scaps
     info['n_req'] = n_req
